@@ -86,6 +86,7 @@ pub fn child(args: &[String]) -> i32 {
         Some("c14") if args.len() >= 5 => c14::child_campaign(&args[1..]),
         Some("c13-race") if args.len() >= 2 => c13::child_race(&args[1..]),
         Some("c13-op") if args.len() >= 2 => c13::child_op(&args[1..]),
+        Some("c13-batch") if args.len() >= 2 => c13::child_batch(&args[1..]),
         Some("c14-one") if args.len() >= 2 => c14::child_one(&args[1..]),
         _ => 2,
     }
